@@ -101,11 +101,28 @@ class Sched(object):
         t = self.by_ident.get(_thread.get_ident())
         return t.proc if t is not None else None
 
+    def step_wall_clock(self, delta):
+        """the wall clock is set forward or back by `delta` seconds; sleeps are measured by a monotonic clock in reality, so the
+        wake-up times of sleeping tasks move with it (nobody sleeps longer or shorter because of the step)"""
+        self.clock.now += delta
+        for t in self.tasks:
+            if t.wake_at is not None:
+                t.wake_at += delta
+
     # -- pre-emption inside pure Python code ---------------------------------
     def enable_line_preemption(self, path_parts, every):
         """line events (sys.settrace) of code whose file name contains one of `path_parts` become pre-emption points of the
         tasks started from now on, on average one in `every` lines (distances drawn from the tape): a thread switch between
         two statements of the code under test, where no system call or queue operation would offer one"""
+        # the traced modules are imported now: a module body that runs under the tracer would yield while holding the
+        # interpreter's import lock (a second importing thread then blocks for real), and only in the first case of a process
+        import importlib
+        for part in path_parts:
+            if part.endswith('.py'):
+                try:
+                    importlib.import_module(part[:-3].replace('/', '.'))
+                except ImportError:
+                    pass
         self._lp = (tuple(path_parts), int(every))
         self._lp_left = self.tape.randint(1, 2 * int(every))
 
